@@ -80,6 +80,7 @@ def opWords : List (String × Tok Term) := [
   ("||", .sym .STRING_OP 0), ("+", .sym .c_plus 0), ("-", .sym .c_minus 0), ("*", .sym .c_star 0), ("/", .sym .c_slash 0),
   ("%", .sym .c_percent 0), ("!", .sym .c_bang 0), ("IS", .sym .IS 0),
   ("NULL", .lit 0), ("TRUE", .lit 1), ("FALSE", .lit 2), ("UNKNOWN", .lit 3),
+  ("BETWEEN", .sym .BETWEEN 0), ("IN", .sym .IN 0), ("CURSOR", .lit 9), ("OPEN", .lit 10), ("RANGE", .lit 11), ("COUNT", .lit 12),
   ("SELECT", .kw .select), ("DISTINCT", .kw .distinct), ("FROM", .kw .from), ("WHERE", .kw .where), ("GROUP", .kw .group),
   ("BY", .kw .by), ("HAVING", .kw .having), ("ORDER", .kw .order), ("ASC", .kw .asc), ("DESC", .kw .desc), ("NULLS", .kw .nulls),
   ("FIRST", .kw .first), ("LAST", .kw .last), ("LIMIT", .kw .limit), ("OFFSET", .kw .offset), ("PERCENT", .kw .percent),
@@ -105,12 +106,24 @@ def tokToWord (t : Tok Term) : String :=
     | none => "?"
 
 open Csvq.OpExpr Csvq.Gen.Precedence in
+mutual
 def showShape : Expr Term → String
   | .atom n => tokToWord (.atom n)
   | .paren e => "P[" ++ showShape e ++ "]"
   | .pre t v e => (match t with | .c_minus => "u-" | .c_plus => "u+" | _ => tokToWord (.sym t v)) ++ "[" ++ showShape e ++ "]"
   | .bin l t v r => tokToWord (.sym t v) ++ "[" ++ showShape l ++ "," ++ showShape r ++ "]"
   | .post e _ neg w => (if neg then "ISNOT[" else "IS[") ++ showShape e ++ "," ++ tokToWord (.lit w) ++ "]"
+  | .nbin l t v r => "NOT" ++ tokToWord (.sym t v) ++ "[" ++ showShape l ++ "," ++ showShape r ++ "]"
+  | .between e neg lo hi => (if neg then "NOTBTW[" else "BTW[") ++ showShape e ++ "," ++ showShape lo ++ "," ++ showShape hi ++ "]"
+  | .inl e neg vs => (if neg then "NOTIN[" else "IN[") ++ showShape e ++ ",(" ++ showArgs vs ++ ")]"
+  | .call f as => "CALL[" ++ tokToWord (.atom f) ++ ",(" ++ showArgs as ++ ")]"
+  | .cstat c neg range => "CS[" ++ tokToWord (.atom c) ++ (if neg then ",NOT" else "") ++ (if range then ",RANGE]" else ",OPEN]")
+  | .cattr c => "CA[" ++ tokToWord (.atom c) ++ "]"
+def showArgs : Args Term → String
+  | .nil => ""
+  | .cons e .nil => showShape e
+  | .cons e (.cons e2 r) => showShape e ++ ";" ++ showArgs (.cons e2 r)
+end
 
 open Csvq.OpExpr Csvq.Gen.Precedence in
 def opx (words : List String) : String :=
